@@ -464,10 +464,10 @@ def write_replay(prop, kind, payload):
     return path
 
 
-def write_evidence(prop, ev):
+def write_evidence(prop, ev, scratch=False):
     # evidence/ describes runs against /repo itself; a run against a scratch copy (VERIF_REPO set
     # by the seeded-change / mutation tooling) must not overwrite it
-    edir = os.path.join(VERIF, "evidence") if os.path.realpath(REPO) == "/repo" else os.path.join(BUILD, "evidence-scratch")
+    edir = os.path.join(VERIF, "evidence") if (os.path.realpath(REPO) == "/repo" and not scratch) else os.path.join(BUILD, "evidence-scratch")
     os.makedirs(edir, exist_ok=True)
     path = os.path.join(edir, prop + ".json")
     tmp = path + ".tmp%d" % os.getpid()
